@@ -42,31 +42,49 @@ def cross {α : Type} : List (List α) → List (List α)
   | [] => [[]]
   | xs :: rest => xs.flatMap fun x => (cross rest).map (x :: ·)
 
+/-- boundary flags per dimension (`Grid.get_boundaries()`: `grids[d].boundary`); dimension `d` of the remaining
+lists is `bd d` -/
+abbrev Flags := Nat → Bool
+
+/-- flags of the dimensions after the first -/
+def Flags.tl (bd : Flags) : Flags := fun d => bd (d + 1)
+
+/-- the same flag in every dimension (`TrapezoidalGrid(a, b, boundary=flag)`) -/
+def Flags.const (flag : Bool) : Flags := fun _ => flag
+
+/-- `all(grid.boundary for grid in grids)` over the first `n` dimensions: the attribute `Grid.boundary` of a
+`MixedGrid` / `TrapezoidalGrid` -/
+def Flags.allOn (bd : Flags) : Nat → Bool
+  | 0 => true
+  | n + 1 => bd 0 && Flags.allOn bd.tl n
+
 /-- the per-dimension coordinate arrays `Grid.coordinate_array` after `setCurrentArea(a, b, levelvec)` -/
-def gridAxes : List Rat → List Rat → List Int → Bool → List (List Rat)
-  | a :: as, b :: bs, l :: ls, bd => levelPoints a b l.toNat bd :: gridAxes as bs ls bd
+def gridAxes : List Rat → List Rat → List Int → Flags → List (List Rat)
+  | a :: as, b :: bs, l :: ls, bd => levelPoints a b l.toNat (bd 0) :: gridAxes as bs ls bd.tl
   | _, _, _, _ => []
 
 /-- `Grid.weights` after `setCurrentArea(a, b, levelvec)` -/
-def weightAxes : List Rat → List Rat → List Int → Bool → List (List Rat)
-  | a :: as, b :: bs, l :: ls, bd => levelWeights a b l.toNat bd :: weightAxes as bs ls bd
+def weightAxes : List Rat → List Rat → List Int → Flags → List (List Rat)
+  | a :: as, b :: bs, l :: ls, bd => levelWeights a b l.toNat (bd 0) :: weightAxes as bs ls bd.tl
   | _, _, _, _ => []
 
 /-- `Grid.getPoints()` = `StandardCombi.get_points_component_grid(levelvec)` -/
-def gridPoints (a b : List Rat) (lv : List Int) (bd : Bool) : List (List Rat) := cross (gridAxes a b lv bd)
+def gridPoints (a b : List Rat) (lv : List Int) (bd : Flags) : List (List Rat) := cross (gridAxes a b lv bd)
 
 /-- `Grid.get_weights()`: `np.prod(get_cross_product_list(self.weights), axis=1)` -/
-def gridWeights (a b : List Rat) (lv : List Int) (bd : Bool) : List Rat :=
+def gridWeights (a b : List Rat) (lv : List Int) (bd : Flags) : List Rat :=
   (cross (weightAxes a b lv bd)).map fun ws => ws.foldl (· * ·) 1
 
 /-- `Grid.levelToNumPoints(levelvec)` -/
-def gridNumPoints (lv : List Int) (bd : Bool) : List Nat := lv.map fun l => levelNumPoints l.toNat bd
+def gridNumPoints : List Int → Flags → List Nat
+  | l :: ls, bd => levelNumPoints l.toNat (bd 0) :: gridNumPoints ls bd.tl
+  | [], _ => []
 
 /-- `StandardCombi.get_num_points_component_grid(levelvec, _)` = `np.prod(levelToNumPoints(levelvec))` -/
-def gridNumPointsTotal (lv : List Int) (bd : Bool) : Nat := (gridNumPoints lv bd).foldl (· * ·) 1
+def gridNumPointsTotal (lv : List Int) (bd : Flags) : Nat := (gridNumPoints lv bd).foldl (· * ·) 1
 
 /-- `IntegratorArbitraryGridScalarProduct.__call__`: `np.inner(f(points).T, weights)` -/
-def quadGrid (a b : List Rat) (lv : List Int) (bd : Bool) (f : List Rat → Rat) : Rat :=
+def quadGrid (a b : List Rat) (lv : List Int) (bd : Flags) (f : List Rat → Rat) : Rat :=
   (List.zipWith (fun p w => f p * w) (gridPoints a b lv bd) (gridWeights a b lv bd)).sum
 
 def ratAbs (x : Rat) : Rat := if x < 0 then -x else x
@@ -81,18 +99,19 @@ def hatFn (a b : Rat) (k i : Nat) (t : Rat) : Rat :=
 def nearEnd (x e a b : Rat) : Bool :=
   decide (ratAbs (x - e) ≤ 1 / 1000000000000 * (b - a))
 
-/-- `np.any(np.abs(points - e) <= tol)` for one point, `e` = the list of lower resp. upper ends -/
-def anyNear : List Rat → List Rat → List Rat → List Rat → Bool
-  | x :: xs, e :: es, a :: as, b :: bs => nearEnd x e a b || anyNear xs es as bs
-  | _, _, _, _ => false
+/-- `np.any(np.logical_and(np.abs(points - e) <= tol, excluded))` for one point, `e` = the list of lower resp. upper
+ends, `excluded[d] = not grids[d].boundary`: only the dimensions WITHOUT boundary points are tested -/
+def anyNearOff : Flags → List Rat → List Rat → List Rat → List Rat → Bool
+  | bd, x :: xs, e :: es, a :: as, b :: bs => (!bd 0 && nearEnd x e a b) || anyNearOff bd.tl xs es as bs
+  | _, _, _, _, _ => false
 
-/-- `Grid.points_not_zero` for one point:
-`boundary or not (any(abs(p - a) <= tol) or any(abs(p - b) <= tol))`, `tol = 1e-12 * (b - a)` -/
-def pointNotZero (a b : List Rat) (bd : Bool) (p : List Rat) : Bool :=
-  bd || !(anyNear p a a b || anyNear p b a b)
+/-- `Grid.points_not_zero` for one point: not on the excluded boundary, i.e. in no dimension without boundary points
+within `tol = 1e-12 * (b - a)` of an end -/
+def pointNotZero (a b : List Rat) (bd : Flags) (p : List Rat) : Bool :=
+  !(anyNearOff bd p a a b || anyNearOff bd p b a b)
 
 /-- `Integration.get_component_grid_values`: the function on the mesh, zero where `points_not_zero` is false -/
-def meshVal (a b : List Rat) (bd : Bool) (f : List Rat → Rat) (p : List Rat) : Rat :=
+def meshVal (a b : List Rat) (bd : Flags) (f : List Rat → Rat) (p : List Rat) : Rat :=
   if pointNotZero a b bd p then f p else 0
 
 /-- `Grid1d.coords_with_boundary`: with boundary points off, `[a] + coords + [b]` -/
@@ -100,8 +119,8 @@ def meshAxis (a b : Rat) (l : Nat) (bd : Bool) : List Rat :=
   if bd then levelPoints a b l bd else a :: (levelPoints a b l bd ++ [b])
 
 /-- `Grid.coordinate_array_with_boundary` after `setCurrentArea(None, None, levelvec)` -/
-def meshAxes : List Rat → List Rat → List Int → Bool → List (List Rat)
-  | a :: as, b :: bs, l :: ls, bd => meshAxis a b l.toNat bd :: meshAxes as bs ls bd
+def meshAxes : List Rat → List Rat → List Int → Flags → List (List Rat)
+  | a :: as, b :: bs, l :: ls, bd => meshAxis a b l.toNat (bd 0) :: meshAxes as bs ls bd.tl
   | _, _, _, _ => []
 
 /-- 1-D linear interpolation of `g` tabulated at the (sorted) nodes, in the first cell whose right end is
@@ -131,7 +150,7 @@ def inBounds : List (List Rat) → List Rat → Bool
 
 /-- `GridOperation.interpolate_points_component_grid(component_grid, None, evaluation_points)` for one output
 component; `none` = `ValueError` (a requested point is out of bounds) -/
-def interpPoints? (a b : List Rat) (lv : List Int) (bd : Bool) (f : List Rat → Rat)
+def interpPoints? (a b : List Rat) (lv : List Int) (bd : Flags) (f : List Rat → Rat)
     (xs : List (List Rat)) : Option (List Rat) :=
   let mesh := meshAxes a b lv bd
   if xs.all (inBounds mesh) then some (xs.map (interpN mesh (meshVal a b bd f))) else none
